@@ -330,6 +330,7 @@ func runHistory(t *testing.T, inst InstD, reqs []ReqD) (obs []ExecObs, start int
 		start = t0.UnixNano()
 		li := buildInstances(inst)
 		var lastLog *execLog
+		var prevBase failsafe.Executor[int]
 		for _, rq := range reqs {
 			rq := rq
 			if rq.Gap > 0 {
@@ -430,15 +431,28 @@ func runHistory(t *testing.T, inst InstD, reqs []ReqD) (obs []ExecObs, start int
 				}
 				return r, e
 			}
-			ex := failsafe.NewExecutor[int](buildPolicies(rq.Stack, li)...).WithContext(ctx)
-			if !rq.NoLsn[0] {
-				ex = ex.OnSuccess(func(e failsafe.ExecutionDoneEvent[int]) { log.done("ExecSuccess", 0, e) })
+			// The executor: listeners are registered first and the context is attached afterwards (WithContext returns a copy
+			// that carries the listeners and leaves the executor it was called on alone).  A request marked SameExec runs on the
+			// previous request's executor itself -- without a context of its own -- which must behave like a fresh one.
+			var base failsafe.Executor[int]
+			if rq.SameExec && prevBase != nil {
+				base = prevBase
+			} else {
+				base = failsafe.NewExecutor[int](buildPolicies(rq.Stack, li)...)
+				if !rq.NoLsn[0] {
+					base = base.OnSuccess(func(e failsafe.ExecutionDoneEvent[int]) { li.log.done("ExecSuccess", 0, e) })
+				}
+				if !rq.NoLsn[1] {
+					base = base.OnFailure(func(e failsafe.ExecutionDoneEvent[int]) { li.log.done("ExecFailure", 0, e) })
+				}
+				if !rq.NoLsn[2] {
+					base = base.OnDone(func(e failsafe.ExecutionDoneEvent[int]) { li.log.done("ExecDone", 0, e) })
+				}
 			}
-			if !rq.NoLsn[1] {
-				ex = ex.OnFailure(func(e failsafe.ExecutionDoneEvent[int]) { log.done("ExecFailure", 0, e) })
-			}
-			if !rq.NoLsn[2] {
-				ex = ex.OnDone(func(e failsafe.ExecutionDoneEvent[int]) { log.done("ExecDone", 0, e) })
+			prevBase = base
+			ex := base
+			if !(rq.SameExec && rq.ExtT == 0 && rq.ExtKind == "" && rq.CtxKey == -1) {
+				ex = base.WithContext(ctx)
 			}
 			var res int
 			var err error
